@@ -311,15 +311,24 @@ inline lib::Payload buildByClass(const BuilderStep& s, lib::CanPayload& can, lib
     }
 }
 
-inline void runWorkload(const Workload& w, OutputSink& out)
+// Objects with a history from which a workload's own objects are copy-constructed (C19: a copy is a separate instance; whatever a
+// class shares between an object and its copies is shared between threads).  Built once, on the main thread, and only read afterwards.
+struct Prototypes
+{
+    lib::Encoder enc;
+    lib::Decoder dec;
+    lib::Status status;
+};
+
+inline void runWorkload(const Workload& w, OutputSink& out, const Prototypes* proto = nullptr)
 {
     switch (w.kind)
     {
         case 0:
         case 5:
         {
-            lib::Encoder enc;
-            lib::Decoder dec;
+            lib::Encoder enc = proto ? lib::Encoder(proto->enc) : lib::Encoder();
+            lib::Decoder dec = proto ? lib::Decoder(proto->dec) : lib::Decoder();
             if (!w.enc.empty())
             {
                 enc.setDeviceId(w.enc[0].dev);
@@ -346,7 +355,7 @@ inline void runWorkload(const Workload& w, OutputSink& out)
         }
         case 1:
         {
-            lib::Decoder dec;
+            lib::Decoder dec = proto ? lib::Decoder(proto->dec) : lib::Decoder();
             for (const auto& f : w.hist.frames)
             {
                 Bytes b = f.build();
@@ -381,7 +390,7 @@ inline void runWorkload(const Workload& w, OutputSink& out)
         }
         case 3:
         {
-            lib::Status st;
+            lib::Status st = proto ? lib::Status(proto->status) : lib::Status();
             for (size_t i = 0; i < w.status.size(); ++i)
             {
                 const StatusOp& op = w.status[i];
